@@ -362,6 +362,9 @@ struct GenericJob {
     spec: QmcSpec,
     beta: f64,
     seed: u64,
+    /// > 0: the first `staged` interactions are given first (heat bath on, a few steps), the rest after the
+    /// heat bath was switched off; then the option is switched on again
+    staged: usize,
 }
 
 fn run_generic_job(j: &GenericJob, nsteps: usize, seed_xor: u64) -> Outcome {
@@ -373,10 +376,11 @@ fn run_generic_job(j: &GenericJob, nsteps: usize, seed_xor: u64) -> Outcome {
     let ex = exact_from_h(&generic_h(spec), spec.nvars, beta);
     let n = spec.nvars;
     let ctx = json!({"sampler": "generic", "bonds": spec.bonds.iter().map(|b| json!([b.kind, b.mat, b.vars])).collect::<Vec<_>>(),
-        "loops": spec.loops, "heatbath": spec.hb, "beta": beta, "initial_state": spec.state, "rng_seed": seed, "steps": nsteps});
+        "loops": spec.loops, "heatbath": spec.hb, "beta": beta, "initial_state": spec.state, "rng_seed": seed, "steps": nsteps,
+        "interactions_given_first": if j.staged > 0 { json!(j.staged) } else { json!("all") }});
     let mut failures = vec![];
     let r = catch_unwind(AssertUnwindSafe(|| {
-        let mut q = spec.build(TapeRng::new(seed)).unwrap();
+        let mut q = if j.staged > 0 { spec.build_staged(TapeRng::new(seed), j.staged, 20, beta).unwrap() } else { spec.build(TapeRng::new(seed)).unwrap() };
         let mut st = Stats::new(1 + n, nsteps);
         for t in 0..(warm + nsteps) {
             q.timestep(beta);
@@ -576,8 +580,17 @@ pub fn run(args: &Args) -> Value {
         for beta in [1.0, 0.5] {
             let seed = rng.next();
             if wanted(prop) {
-                generic_jobs.push(GenericJob { prop, key, spec: spec.clone(), beta, seed });
+                generic_jobs.push(GenericJob { prop, key, spec: spec.clone(), beta, seed, staged: 0 });
             }
+        }
+    }
+    // interactions added after the heat bath had been on and was switched off: the cached table must not survive
+    for (m, beta) in [(2usize, 1.0), (2, 1.5), (1, 1.0)] {
+        let spec = QmcSpec { nvars: 2, bonds: vec![cst(0, 0.75), cst(1, 1.25), BondSpec { kind: 2, mat: vec![2.0, 0.0, 0.0, 2.0], vars: vec![0, 1] }],
+            state: vec![true, false], loops: false, hb: true };
+        let seed = rng.next();
+        if wanted("C02") || wanted("C04") {
+            generic_jobs.push(GenericJob { prop: "C02,C04", key: None, spec, beta, seed, staged: m });
         }
     }
     // ---------------- tempering (C05): every rung at its own thermal distribution, serial and rayon drivers
